@@ -269,10 +269,10 @@ func (m *model) recentCount(b *mMbox) int {
 // ---- mailbox writes ----
 
 type newMbox struct {
-	remoteID               imap.MailboxID
-	name                   string
-	flags, perm, attrs     []string
-	uidValidity            imap.UID
+	remoteID           imap.MailboxID
+	name               string
+	flags, perm, attrs []string
+	uidValidity        imap.UID
 }
 
 // createMailbox: remote id and name are unique (schema: UNIQUE on both). New mailboxes are subscribed
